@@ -3,7 +3,7 @@ import json, os
 from .. import core
 
 PROOF = "Props/C11.v"
-RUN_FILES = ["Run/CodeMapRun.v", "Run/LebRun.v"]
+RUN_FILES = ["Run/CodeMapRun.v", "Run/LebRun.v", "Run/FrameRun.v"]
 CORR_NAME = "CodeMap model (over parseM/emitM and the Emit visitor model) vs. the CodeTransform real walrus hands to a recording custom section"
 ASSUMPTIONS = [
     "Model/CodeMap.v is a hand-written model of the tail of ModuleFunctions::emit (BTreeMap fill, function ranges, code_section_start); positions inside a body come from Model/EmitFn.v (checked by C03/C15); the models are tied to the code by comparing the CodeTransform observed through CustomSection::apply_code_transform on every case (this run)",
@@ -36,4 +36,10 @@ def correspondence(ctx, thorough, search, prop="C11", sub=""):
            "samples": meta["samples"], "traces_validated_against_impl": n_eval,
            "input_distribution": {k: meta[k] for k in ("leb_cases", "inputs", "corpus", "fixtures", "generated", "after_gc", "with_inserted_instructions", "pairs_checked", "function_ranges_checked", "outside_modelled_universe")},
            "exhaustive": False}
+    if not sub:
+        # byte-level layout of the emitted code section (Model/Frame.v): body offsets per wasmparser vs the model's
+        from .c12 import frame_run
+        d2, _, c2 = frame_run(ctx, thorough, search)
+        dis += d2
+        cov["framing"] = c2
     return {"disagreements": dis, "oracle_violations": ov, "coverage": cov}
